@@ -22,6 +22,7 @@ RULE = ("11 geometry kinds x vertex clouds (on the axes, near them, 1e3..1e7 awa
 ASSUMPTIONS = ["pyproj/PROJ (oracle's own transformer objects, never the library's cache) defines how a point maps", "shapely for area/length",
                "round trip bound 1e-6 m (1e-11 deg) same datum, 1e-2 m with a datum shift (EPSG:27700)"]
 SHARDS = {"quick": 1, "thorough": 8}
+SUITE_UNDER_MONITOR = True
 
 _mon: Monitor = None  # type: ignore
 
@@ -289,12 +290,18 @@ def drive_densify(mon: Monitor, rng: random.Random, n: int) -> None:
             import shapely.geometry as sg
 
             L = size * rng.choice([1, 10, 100])
+            ang = rng.choice([45, 135, 225, 315, 30, 60, rng.uniform(0, 360)])
+            ox_, oy_ = origin
             shp = rng.choice([sg.LineString([(0, 0), (0, L)]), sg.LineString([(0, -L), (0, L), (L, L)]), sg.LineString([(1e-9, 0), (1e-9, L)]),
-                              sg.Polygon([(0, 0), (0, L), (L, L), (L, 0)]), sg.LineString([(-L, 0), (L, 0)])])
+                              sg.Polygon([(0, 0), (0, L), (L, L), (L, 0)]), sg.LineString([(-L, 0), (L, 0)]),
+                              sg.LineString([(ox_, oy_), (ox_ + L * math.cos(math.radians(ang)), oy_ + L * math.sin(math.radians(ang)))]),
+                              sg.LineString([(ox_, oy_), (ox_ + 3 * L, oy_ + 4 * L)]), sg.Polygon([(ox_, oy_), (ox_ + 3 * L, oy_), (ox_ + 3 * L, oy_ + 4 * L)])])
         g = G.Geometry(shp, rng.choice(["EPSG:3857", None, "EPSG:32633"]))
         edges = [math.hypot(q[0] - p[0], q[1] - p[1]) for part in _parts(shp) for c in part[1] for p, q in zip(c[:-1], c[1:])]
         edges = [e for e in edges if e > 0] or [size]
-        res = max(rng.choice([min(edges) / 50, min(edges) / 3, min(edges), max(edges) / 7.5, max(edges), max(edges) * 10, size / 10]), max(edges) / 400)
+        res = max(rng.choice([min(edges) / 50, min(edges) / 3, min(edges), max(edges) / 7.5, max(edges), max(edges) * 10, size / 10,
+                              # just below an edge length: the edge must still be split (once)
+                              max(edges) * 0.999, max(edges) * 0.8, max(edges) * 0.72, min(edges) * 0.9, rng.choice(edges) * rng.uniform(0.5, 1.0)]), max(edges) / 400)
         try:
             g.segmented(res)
             if rng.random() < 0.2 and len(edges) > 0 and kind in ("line", "ring"):
